@@ -1,5 +1,6 @@
 import Rie.Proofs.Sys
 import Rie.Props.FrontEndTable
+import Rie.Proofs.SysResv
 
 /-!
 # C10 — At most one invocation in flight; extra callers are refused harmlessly
@@ -62,5 +63,29 @@ example :
 theorem C10_frontend_refusal (proxyStatus : Nat) :
     Rie.FrontEnd.respond (some "ErrAlreadyReserved") proxyStatus = { status := 400, chunks := [] } := by
   simp [Rie.FrontEnd.respond, Rie.FrontEnd.table, Rie.FrontEnd.run, Rie.FrontEnd.setStatus]
+
+/-- **At most one invocation in flight, and it is the latest — whole runs.** From a state without a reservation
+    (a freshly started emulator), after ANY sequence of ops — invocations (admitted or refused), API calls in any
+    order, exits, timeouts, resets, shutdowns, restores, every timer firing — under any scheduler choices: the
+    reservation, if there is one, belongs to the invocation admitted last (its number is the counter minus
+    one). There is one reservation slot, an admission needs it free (`C10_admitted_only_when_free`), and nothing
+    but an admission ever writes a number into it: no function of the model revives an earlier invocation's
+    reservation while a later one is in flight or after it. Invariant `Rie.Sys.RInv`, `Rie/Proofs/SysResv.lean`
+    (frame lemmas: every function leaves the counter and the reservation's number alone, or gives the
+    reservation up). -/
+theorem C10_one_in_flight_run (s0 : State) (h0 : s0.resv = none) (ops : List (Nat × Op)) :
+    let s := (run s0 [] ops).1
+    ∀ r, s.resv = some r → r.k + 1 = s.nextK := by
+  intro s
+  have i0 : RInv s0 := by intro r hr; rw [h0] at hr; cases hr
+  exact rinv_run s0 [] ops i0
+
+-- non-vacuity: a refused second caller leaves the first one's reservation (number 1 of counter 2); after the
+-- invocation has completed the slot is free and the next admission takes number 2
+example :
+    let ops : List (Nat × Op) := [(0, .invoke 0 1 "a"), (0, .rtNext), (0, .invoke 1 1 "b")]
+    ((run {} [] ops).1.resv.map (·.k), (run {} [] ops).1.nextK) = (some 1, 2) ∧
+    let ops2 := ops ++ [(0, .rtResponse (some 1) 1 "x" false), (0, .rtNext), (0, .invoke 2 1 "c")]
+    ((run {} [] ops2).1.resv.map (·.k), (run {} [] ops2).1.nextK) = (some 2, 3) := by decide +kernel
 
 end Rie.Props.C10
